@@ -7,6 +7,7 @@ import (
 	"sort"
 	"strings"
 
+	"verif/checker/internal/gen"
 	"verif/checker/internal/interp"
 	"verif/checker/internal/load"
 	"verif/checker/internal/tmpl"
@@ -74,6 +75,11 @@ func fullStruct(m *interp.Machine, t *types.Named, fields map[string]interp.Valu
 // newRegWorld interprets registry.New(".", moqPkg) on an abstract loaded package whose files carry
 // the given import specs.
 func newRegWorld(prog *load.Program, specs []importSpec, moqPkg string) (*regWorld, error) {
+	return newRegWorldWith(prog, specs, moqPkg, nil)
+}
+
+// newRegWorldWith: as newRegWorld, with a given abstract go/types package for the loaded source package.
+func newRegWorldWith(prog *load.Program, specs []importSpec, moqPkg string, typesPkg *interp.Opaque) (*regWorld, error) {
 	m := interp.New(prog)
 	tmpl.InstallTypesModels(m, prog)
 	tmpl.RemoveVarModels(m)
@@ -119,8 +125,11 @@ func newRegWorld(prog *load.Program, specs []importSpec, moqPkg string) (*regWor
 	files.Elems = append(files.Elems,
 		&interp.Ptr{Elem: fullStruct(m, tFile, map[string]interp.Value{"Imports": &interp.List{Elems: fileSpecs.Elems[:half]}})},
 		&interp.Ptr{Elem: fullStruct(m, tFile, map[string]interp.Value{"Imports": &interp.List{Elems: fileSpecs.Elems[half:]}})})
+	if typesPkg == nil {
+		typesPkg = pkgOpaque(rwSrcPath, rwSrcName)
+	}
 	srcPkg := &interp.Ptr{Elem: fullStruct(m, tPkg, map[string]interp.Value{
-		"Name": interp.Lit(rwSrcName), "PkgPath": interp.Lit(rwSrcPath), "Types": pkgOpaque(rwSrcPath, rwSrcName),
+		"Name": interp.Lit(rwSrcName), "PkgPath": interp.Lit(rwSrcPath), "Types": typesPkg,
 		"Syntax": files, "Errors": &interp.List{},
 	})}
 	m.Ext["golang.org/x/tools/go/packages.Load"] = func(mm *interp.Machine, pos token.Pos, recv interp.Value, args []interp.Value) (interp.Value, error) {
@@ -245,12 +254,12 @@ func importTables(c *Ctx) {
 	// ---------------- harvest
 	{
 		specs := []importSpec{
-			{"", false, dep},            // no name
+			{"", false, dep}, // no name
 			{".", false, "example.test/dot"},
 			{"_", false, "example.test/blank"},
-			{"ȧ1", true, dep2},          // a proper alias
+			{"ȧ1", true, dep2}, // a proper alias
 			{"ȧ2", true, dep3},
-			{"ȧ3", true, dep3},          // the same path again with another alias: the later spec decides
+			{"ȧ3", true, dep3},                  // the same path again with another alias: the later spec decides
 			{"ȧ4", true, "example.test/fourth"}, // an alias, then the same path imported for side effects and without a name:
 			{"_", false, "example.test/fourth"}, // the alias is the only usable qualifier the source offers and stays
 			{"", false, "example.test/fourth"},
@@ -401,7 +410,7 @@ func searchLiveTable(c *Ctx) {
 			v, err = w.addImport(dep, "dep")
 			p, _ = v.(*interp.Ptr)
 		}
-		search := prog.LookupFunc(load.PkgRegistry, "Registry.searchImport")
+		search := gen.QualifierSearch(prog)
 		switch {
 		case err != nil:
 			und("G-IMPORT/search-live", "table", err)
@@ -410,8 +419,15 @@ func searchLiveTable(c *Ctx) {
 		default:
 			// the import is re-aliased behind the registry's back, the way conflict resolution does it
 			p.Elem.Fields["Alias"] = interp.Lit("renamed")
+			var searchRecv interp.Value = w.reg
+			if sig, ok := search.Type().(*types.Signature); ok && sig.Recv() != nil {
+				if _, isMap := sig.Recv().Type().Underlying().(*types.Map); isMap {
+					mv, _ := w.mapField(false)
+					searchRecv = mv
+				}
+			}
 			found := func(name string) (bool, error) {
-				v, err := w.m.CallFunc(token.NoPos, search, w.reg, []interp.Value{interp.Lit(name)})
+				v, err := w.m.CallFunc(token.NoPos, search, searchRecv, []interp.Value{interp.Lit(name)})
 				if err != nil {
 					return false, err
 				}
